@@ -40,3 +40,8 @@ CONFIG = dict(
          "faults each (negated s, recid variants, r/s out of range, bit flips, message+n, message 0, other key, other parity); "
          "ECDH on valid and invalid pairs; deterministic sequences from seeds of 1..100 bytes; distinct = distinct (op,result) lines",
 )
+
+
+def run(tier, seed, replay):
+    from checks.cryptocommon import run_with_startup_guard
+    return run_with_startup_guard(CONFIG, tier, seed, replay)
